@@ -236,7 +236,11 @@ func PrepareExternalNode(ctx context.Context, log *Log, mode, binary string, spe
 			adminBlock += "\n    - '" + ip + "'"
 		}
 	}
-	cfg := fmt.Sprintf(`log-level: warn
+	lvl := os.Getenv("VERIF_DIRK_LOGLEVEL") // development aid
+	if lvl == "" {
+		lvl = "warn"
+	}
+	cfg := fmt.Sprintf(`log-level: `+lvl+`
 server:
   id: %d
   name: %s
@@ -301,7 +305,14 @@ func (e *ExternalEnv) Kill() {
 }
 
 // Remove deletes everything on disk.
-func (e *ExternalEnv) Remove() { os.RemoveAll(e.Dir) }
+func (e *ExternalEnv) Remove() {
+	if keep := os.Getenv("VERIF_KEEP_DIRK_LOG"); keep != "" { // development aid: keep what the binary printed
+		if b, err := os.ReadFile(filepath.Join(e.Dir, "dirk.stderr")); err == nil {
+			_ = os.WriteFile(filepath.Join(keep, fmt.Sprintf("dirk-%d-%d.stderr", os.Getpid(), time.Now().UnixNano())), b, 0o600)
+		}
+	}
+	os.RemoveAll(e.Dir)
+}
 
 // Dialer returns an APIServer handle usable for Dial (credentials minted from this environment's authorities).
 func (e *ExternalEnv) Dialer() *APIServer {
@@ -338,7 +349,7 @@ func (r *Runner) RunRemote(ctx context.Context, sc *Scenario, binary string) err
 	if len(spec.Wallets) == 0 && spec.NKeys == 0 {
 		spec.NKeys = 4
 	}
-	perms := map[string]map[string]string{"c1": {"W1": "All"}}
+	perms := map[string]map[string]string{"c1": {"W1": "All", "DW1": "All"}} // (DW1: the distributed accounts of worlds with Dist > 0)
 	if pj := os.Getenv("VERIF_REMOTE_PERMS"); pj != "" {
 		// development aid: another permission block for the binary's configuration file
 		if err := json.Unmarshal([]byte(pj), &perms); err != nil {
